@@ -40,6 +40,33 @@ func init() {
 	}
 }
 
+// soak probes: tens of millions of decodes of 8-bit-derived values only (what a batch of 8-bit images produces), as
+// the first thing a process does; the ordinary probes that follow then meet whatever state that built up
+func init() {
+	for i := range sp.Spaces {
+		a := &sp.Spaces[i]
+		ev.RegisterProbe("soak:"+a.Name+" 8-bit-derived decodes", func() string {
+			n := 1<<24 + 4096
+			if a.From16 != nil {
+				var acc float32
+				for k := 0; k < n; k++ {
+					acc += a.From16(uint16(257 * (k & 255)))
+				}
+				_ = acc
+				for k := 0; k < 1<<20; k++ {
+					a.From8(uint8(k))
+				}
+				return ""
+			}
+			for k := 0; k < n/8; k++ { // the colour-level entry point is slower; three channels per call
+				v := uint8(k)
+				a.FromEncoded(color.NRGBA{R: v, G: v + 85, B: v + 170, A: 255})
+			}
+			return ""
+		})
+	}
+}
+
 // order probes (see ev.ProbeOrders): every decode entry point of every space, in generated orders, each order in
 // a fresh process, so that the lazily built tables are first touched by a different function each time
 func init() {
